@@ -78,7 +78,7 @@ func badClient(g *fleetGen) {
 		maxv := n.m.MaxIndexableValue()
 		switch r.Pick(40, 25, 12, 10, 13) {
 		case 0:
-			v := []float64{math.NaN(), math.Inf(1), math.Inf(-1), math.MaxFloat64, -math.MaxFloat64, nudge(maxv, 1), -nudge(maxv, 1), maxv * 2, -maxv * 1.0001, 1, -3}[r.Intn(11)]
+			v := []float64{math.NaN(), math.Inf(1), math.Inf(-1), math.MaxFloat64, -math.MaxFloat64, nudge(maxv, 1), -nudge(maxv, 1), maxv * 2, -maxv * 1.0001, 1, -3, maxv / 2, -maxv / 1e3, maxv * (1 - 1e-9)}[r.Intn(14)]
 			w := []float64{1, 1, 2, 0.5, -1, -0.25, -1e300, math.Inf(-1)}[r.Intn(8)]
 			g.emit(engine.Event{Ev: "badreq", N: n.id, S: "add", V: engine.F64(v), W: engine.F64(w), I: int64(r.Intn(2))})
 		case 1:
@@ -93,6 +93,10 @@ func badClient(g *fleetGen) {
 			w := []float64{0, math.Copysign(0, -1), -1, -0.5, -1e-300, math.Inf(-1)}[r.Intn(6)]
 			g.emit(engine.Event{Ev: "badreq", N: n.id, S: "reweight", W: engine.F64(w)})
 		default:
+			if r.Pct(25) {
+				g.emit(engine.Event{Ev: "decayq", N: n.id})
+				break
+			}
 			which := r.Intn(9)
 			var v float64
 			if which < 6 {
